@@ -52,10 +52,10 @@ type famRec struct {
 
 // Line is one line printed by Measure.tla (header or scenario).
 type Line struct {
-	Hdr  bool         `json:"hdr,omitempty"`
-	Fams []famRec     `json:"fams,omitempty"`
-	Ring [][][2]int   `json:"ring,omitempty"`
-	Gaps [][][2]int   `json:"gaps,omitempty"`
+	Hdr  bool       `json:"hdr,omitempty"`
+	Fams []famRec   `json:"fams,omitempty"`
+	Ring [][][2]int `json:"ring,omitempty"`
+	Gaps [][][2]int `json:"gaps,omitempty"`
 	Scen
 }
 
@@ -75,7 +75,7 @@ type Scen struct {
 	Cuts   []int         `json:"cuts"` // pyth: cut positions in half units
 	Total2 int           `json:"total2"`
 	Pieces [][]Frag      `json:"pieces"`
-	Fr     []int         `json:"fr"` // curves: cut positions in sixteenths of Length()
+	Fr     []int         `json:"fr"`   // curves: cut positions in sixteenths of Length()
 	Tips   [][2]int      `json:"tips"` // LineReversal: the vertices at which consecutive straight edges (closing edge included) reverse direction
 }
 
@@ -185,8 +185,8 @@ func featTag(f int) string {
 func devClass(rel float64) string {
 	a := math.Abs(rel)
 	switch {
-	case a <= 0.05:
-		return "off<=5%"
+	case a <= 0.06:
+		return "off<=6%"
 	case a <= 0.25:
 		return "off<=25%"
 	}
@@ -262,7 +262,10 @@ func (x *ctxInfo) checkLength(p *canvas.Path, add func(sig, detail string), stat
 				continue
 			}
 			nDev++
-			sf := x.feat(b[2]) &^ fTurn // TurnsBack is a feature of SplitAt positions only
+			sf := x.feat(b[2])
+			if g.K != "C" {
+				sf &^= fTurn // the length of a quadratic is a closed formula; TurnsBack matters for cubics (quadrature near a cusp)
+			}
 			devFeat |= sf
 			devKinds[kindLetter(g)] = true
 			if sf == 0 {
@@ -609,6 +612,9 @@ func (x *ctxInfo) checkSplitCurves(p *canvas.Path, length float64, lengthOK bool
 	where := fmt.Sprintf("SplitAt(%v) [sixteenths %v of Length() = %.9g]; %s", ts, s.Fr, length, s.desc())
 	ps, pm := splitCall(p, ts)
 	if pm != nil {
+		if x.multi {
+			tag = "+multi-subpath"
+		}
 		add("splitat:panic("+latgeo.PanicClass(pm)+")"+tag, fmt.Sprintf("SplitAt panics: %v; %s", pm, where))
 		return
 	}
@@ -669,9 +675,13 @@ func (x *ctxInfo) checkSplitCurves(p *canvas.Path, length float64, lengthOK bool
 		add("splitat:piece-count"+tag, fmt.Sprintf("%d non-empty pieces for %d distinct positions strictly inside (0, Length); %s", len(pcs), len(ts), where))
 		return
 	}
-	// lengths of the pieces: sum to Length(), each equal to the difference of its positions
-	if math.Abs(sum-length) > band*length {
-		add("splitat:length-sum"+tag, fmt.Sprintf("Length() of the pieces sum to %.9g, Length() of the path = %.9g (%+.2f %%); %s", sum, length, 100*(sum-length)/length, where))
+	// lengths of the pieces sum to the length of the path: Length() of the whole and the Length() of the pieces are both
+	// approximations (about one percent) of true lengths, so the sum is demanded in the same acceptance band around the
+	// specification's bracket of the true length as Length() itself
+	ld := float64(s.Ld)
+	lo, hi := float64(s.Br[0])/ld*x.sc, float64(s.Br[1])/ld*x.sc
+	if !(sum >= lo*(1-band) && sum <= hi*(1+band)) {
+		add("splitat:length-sum"+tag, fmt.Sprintf("Length() of the pieces sum to %.9g, true length of the path in [%.9g, %.9g] (%+.2f %%), Length() of the path = %.9g; %s", sum, lo, hi, 100*relDev(sum, lo, hi), length, where))
 	}
 	// cut points at the prescribed arc lengths: piece k (not the last) is as long as its two positions are apart; the last
 	// piece ends where the path ends: it is as long as the TRUE length of the path (independent evaluator) minus the
@@ -806,7 +816,15 @@ func (x *ctxInfo) checkReverse(p *canvas.Path, length float64, lengthOK bool, ad
 	ld := float64(s.Ld)
 	lo, hi := float64(s.Br[0])/ld*x.sc, float64(s.Br[1])/ld*x.sc
 	if lengthOK && !(rl >= lo*(1-band) && rl <= hi*(1+band)) {
-		add("reverse:length", fmt.Sprintf("Length of the reversed path %.12g, of the path %.12g, true length in [%.9g, %.9g]; %s", rl, length, lo, hi, where))
+		tag := ""
+		for j, c := range s.Path {
+			for i, g := range c.Segs {
+				if g.K == "C" && s.Segs[j][i][2]&fTurn != 0 {
+					tag = "+bezier-turns-back"
+				}
+			}
+		}
+		add("reverse:length"+tag, fmt.Sprintf("Length of the reversed path %.12g, of the path %.12g, true length in [%.9g, %.9g]; %s", rl, length, lo, hi, where))
 	}
 	// bounds
 	var b0, b1 canvas.Rect
@@ -998,17 +1016,17 @@ func hash(s string) uint32 {
 }
 
 type runner struct {
-	c        *core.Ctx
-	scen     int64
-	runs     int64
-	nontriv  int64
-	skipped  int64
-	seen     sync.Map
-	mu       sync.Mutex
-	maxDev   map[string]float64 // by kinds: largest |relative deviation| of Length from the bracket
-	feat     map[string]int64
-	sampled  int32
-	hdrOK    int32
+	c       *core.Ctx
+	scen    int64
+	runs    int64
+	nontriv int64
+	skipped int64
+	seen    sync.Map
+	mu      sync.Mutex
+	maxDev  map[string]float64 // by kinds: largest |relative deviation| of Length from the bracket
+	feat    map[string]int64
+	sampled int32
+	hdrOK   int32
 }
 
 // verifyHeader re-computes every entry of the specification's table of elliptic arc lengths numerically.
@@ -1185,9 +1203,9 @@ func (d Driver) Run(c *core.Ctx) error {
 
 	// 1. model level
 	mc := []tlc.Opts{
-		{Module: "Measure", Config: cfg(8, 0, "pyth", `{"L"}`, "{1}", c.Pick(80, 1200), true), Seed: c.Seed, Workers: 4, HeapGB: 3, Coverage: c.Thorough(), Timeout: 20 * time.Minute},
-		{Module: "Measure", Config: cfg(10, 0, "curves", all, fams10, c.Pick(30, 400), true), Seed: c.Seed, Workers: 4, HeapGB: 3, Timeout: 20 * time.Minute},
-		{Module: "Measure", Config: cfg(6, 1, "chord", `{"L","A"}`, "{1}", c.Pick(40, 300), true), Seed: c.Seed, Workers: 2, HeapGB: 2, Timeout: 20 * time.Minute},
+		{Module: "Measure", Config: cfg(8, 0, "pyth", `{"L"}`, "{1}", c.Pick(80, 500), true), Seed: c.Seed, Workers: 4, HeapGB: 3, Timeout: 30 * time.Minute},
+		{Module: "Measure", Config: cfg(10, 0, "curves", all, fams10, c.Pick(30, 300), true), Seed: c.Seed, Workers: 4, HeapGB: 3, Timeout: 30 * time.Minute},
+		{Module: "Measure", Config: cfg(6, 1, "chord", `{"L","A"}`, "{1}", c.Pick(40, 300), true), Seed: c.Seed, Workers: 2, HeapGB: 2, Timeout: 30 * time.Minute},
 	}
 	// 2. spec -> code
 	var jobs []tlc.Opts
@@ -1195,14 +1213,14 @@ func (d Driver) Run(c *core.Ctx) error {
 		jobs = append(jobs, tlc.Opts{Module: "Measure", Config: cfg(n, nc, mode, kinds, fams, num, false), Seed: c.Seed + off, Workers: 4, HeapGB: 3, Timeout: 30 * time.Minute})
 	}
 	if c.Thorough() {
-		gen(8, 0, "pyth", `{"L"}`, "{1}", 9000, 0)
+		gen(8, 0, "pyth", `{"L"}`, "{1}", 8000, 0)
 		gen(8, 1, "pyth", `{"L"}`, "{1}", 5000, 1)
-		gen(10, 0, "curves", all, fams10, 3500, 2)
+		gen(10, 0, "curves", all, fams10, 2800, 2)
 		gen(10, 1, "curves", `{"A"}`, fams10, 2500, 3)
 		gen(20, 0, "curves", `{"L","A"}`, "{1,2,3,4,5,6,7,8,9,10,11}", 2000, 4)
 		gen(30, 1, "curves", `{"A"}`, famsAll, 1200, 5)
-		gen(8, 0, "curves", `{"L","Q","C"}`, "{1}", 3000, 6)
-		gen(6, 1, "curves", `{"C"}`, "{1}", 2500, 7)
+		gen(8, 0, "curves", `{"L","Q","C"}`, "{1}", 2200, 6)
+		gen(6, 1, "curves", `{"C"}`, "{1}", 2000, 7)
 		gen(8, 1, "curves", `{"Q"}`, "{1}", 1500, 10)
 		gen(6, 1, "chord", `{"L","A"}`, "{1}", 2000, 8)
 		gen(12, 0, "curves", `{"L"}`, "{1}", 2500, 9)
